@@ -33,15 +33,15 @@ func TestC10(t *testing.T) {
 	e := LoadEnv("C10")
 	cf := NewCaseFile("C10", "From Cache Require Import Base Backend Spec Jitter Check.", "check_c10")
 	cf.Rule = "per case: config TimeToLive in {default,unlimited,1ns..10y,negative}, ExpirationJitter in {disabled,default 0.1,1e-9,0.1,0.5,1}, " +
-		"1..3 writes with context TTL in {none,1ns,17ns,1s,1h,30d,10y and negatives}; the jitter draw is predicted by a mirrored seeded math/rand; " +
+		"1..3 writes with context TTL in {none,1ns,17ns,1s,1h,30d,10y and negatives down to -100y (expiry before 1970)}, a read right after every write whose expiry lies in the past; the jitter draw is predicted by a mirrored seeded math/rand; " +
 		"expiry observed via Walk; boundary reads at E-1,E,E+1 ns when E lies in the future; 3 backends; " +
 		"non-trivial = jitter drawn and boundary reads done; distinct = distinct Gallina term"
 
 	day := int64(24 * time.Hour)
 	year := 365 * day
 	ttls := []int64{0, -1, 1, 2, 17, 1000, int64(time.Second), int64(time.Minute), int64(time.Hour), 30 * day, year, 10 * year,
-		-2, -int64(time.Second), -int64(time.Hour), -year}
-	ctxs := []int64{0, 0, 1, 17, int64(time.Second), int64(time.Hour), 30 * day, 10 * year, -1, -17, -int64(time.Hour), -10 * year}
+		-2, -int64(time.Second), -int64(time.Hour), -year, -100 * year}
+	ctxs := []int64{0, 0, 1, 17, int64(time.Second), int64(time.Hour), 30 * day, 10 * year, -1, -17, -int64(time.Hour), -10 * year, -100 * year}
 	jits := []float64{-1, 0, 1e-9, 0.1, 0.5, 1}
 	n := e.Pick(130, 2000)
 
@@ -115,6 +115,17 @@ func TestC10(t *testing.T) {
 						if string(we.K) == string(k) {
 							cw.E = we.E
 						}
+					}
+
+					// an expiry that already lies in the past (negative TTLs, down to instants before 1970) must read as expired
+					if cw.E != -1 && cw.E != 0 && cw.E <= now {
+						rn := time.Now().UnixNano()
+						res := b.Read(ctx, k)
+						ops = append(ops, BOp{Kind: "read", K: k, Now: rn})
+						ress = append(ress, res)
+						cw.Reads = append(cw.Reads, res)
+
+						cf.Count("past_expiry_read", 1)
 					}
 
 					// boundary reads
